@@ -82,7 +82,7 @@ def make_weights(N, spec):
     if form == "nan":
         arg = numpy.array([wi if o else NaN for wi, o in zip(w, ok)], dtype=float)
     else:
-        hidden = NaN if form == "pair-nan" else HUGE
+        hidden = {"pair-nan": NaN, "pair-zero": 0.0}.get(form, HUGE)
         arg = (numpy.array([wi if o else hidden for wi, o in zip(w, ok)], dtype=float), numpy.array(ok, dtype=bool))
     return arg, w, ok
 
